@@ -2,7 +2,9 @@
 
  R1 field coverage of composite merges: in every `impl AbstractDomain for <struct>` whose
     merge builds the struct field by field, every field that carries domain information is
-    computed from that same field of BOTH self and other (same-field pairing)
+    computed from that same field of BOTH self and other (same-field pairing); the same for merges
+    that build a payload struct behind a wrapper (Arc<Inner>) and for merges that patch a clone of one
+    operand (a field never written after the clone is a plain copy of that operand)
  R2 join operators by type for DataDomain: the top flag is joined with ||, the optional
     absolute value is None only if both are None, the keyed map visits every key of other
     with insert-or-merge
@@ -220,6 +222,155 @@ def run(run):
         run.floor("field-by-field merges", n, 4)
 
     run.guarded("R1", r1)
+
+    # ---- R1 for merges that build a payload struct behind a wrapper (Arc<Inner>) or patch a clone of one operand
+    MUTATORS = ("extend", "append", "merge_with", "insert", "push", "union_with", "extend_from_slice")
+    UNWRAP = ("make_mut", "deref_mut", "get_mut", "as_mut", "borrow_mut", "deref", "as_ref")
+
+    def mentions_t(t):
+        out = set()
+        for y in S.subterms(t):
+            if isinstance(y, tuple) and y and y[0] == "field":
+                names, b = [], y
+                while isinstance(b, tuple) and b and b[0] == "field":
+                    names.append(b[2])
+                    b = b[1]
+                    while is_call(b, UNWRAP) and b[2]:
+                        b = b[2][0]
+                if isinstance(b, tuple) and b and b[0] == "var" and b[1] in ("self", "other"):
+                    for nm in names:
+                        out.add((b[1], nm))
+        return out
+
+    def payload_structs(adt):
+        """the struct itself and structs named inside the types of its fields (Arc<Inner>)"""
+        out = [adt]
+        for fld in adt["variants"][0]["fields"]:
+            ty = F.tyi(fld["t"])
+            for path, a in F.adts.items():
+                if a is not adt and a["kind"] == "struct" and path in ty:
+                    out.append(a)
+        return out
+
+    def r1b():
+        n = 0
+        for imp in sorted(impls, key=lambda i: i["adt"]):
+            adt = F.adts.get(imp["adt"])
+            if adt is None or adt["kind"] != "struct":
+                continue
+            mpath = [it["path"] for it in imp["items"] if it["name"] == "merge"]
+            if not mpath or mpath[0] not in F.by_path:
+                continue
+            fn = F.by_path[mpath[0]]
+            if any(x.get("k") == "Adt" and x["adt"] == imp["adt"] for x in T.walk(fn["body"])):
+                continue  # covered by R1
+            t = S.Sym(F).term(fn["body"])
+            short = imp["adt"].split("::")[-1]
+            cands = payload_structs(adt)
+            site = F.loc(fn["body"])
+            # (a) literal of a payload struct
+            plits = [x for x in S.subterms(t) if isinstance(x, tuple) and x and x[0] == "adt" and any(x[1] == c["path"] for c in cands[1:])]
+            for lit in plits:
+                P = [c for c in cands if c["path"] == lit[1]][0]
+                fs = dict(lit[3])
+                n += 1
+                for fld in P["variants"][0]["fields"]:
+                    fname, fty = fld["name"], F.tyi(fld["t"])
+                    if not domainish(fty, impl_adts) or fname not in fs:
+                        continue
+                    m = mentions_t(fs[fname])
+                    missing = [b for b in ("self", "other") if (b, fname) not in m]
+                    run.check("R1", "%s|%s" % (short, fname), not missing, "field `%s` of the merged %s does not depend on %s: values represented only by that input are lost" % (fname, short, " and ".join("%s.%s" % (b, fname) for b in missing)), site)
+            if plits:
+                continue
+            # (b) clone of one operand, patched field by field
+            for sq in [x for x in S.subterms(t) if isinstance(x, tuple) and x and x[0] == "seq"]:
+                tail = S.value(sq[2])
+                if tail[0] != "var":
+                    continue
+                res = tail[1]
+                inits = [st for st in sq[1] if st[0] == "letstmt" and st[1] == res]
+                if not inits:
+                    continue
+                base = S.value(inits[0][2])
+                while is_call(base, ("clone", "to_owned")) and base[2]:
+                    base = S.value(base[2][0])
+                if not (base[0] == "var" and base[1] in ("self", "other")):
+                    continue
+                B = base[1]
+                O = "other" if B == "self" else "self"
+                aliases = {res}
+                for st in sq[1]:
+                    if st[0] == "letstmt":
+                        v = S.value(st[2])
+                        while is_call(v, UNWRAP) and v[2]:
+                            v = S.value(v[2][0])
+                        root = v
+                        while isinstance(root, tuple) and root and root[0] == "field":
+                            root = root[1]
+                        if isinstance(root, tuple) and root and root[0] == "var" and root[1] in aliases and st[1] != res:
+                            aliases.add(st[1])
+
+                def target_field(l):
+                    names, b = [], l
+                    while True:
+                        while is_call(b, UNWRAP) and b[2]:
+                            b = b[2][0]
+                        if isinstance(b, tuple) and b and b[0] == "field":
+                            names.append(b[2])
+                            b = b[1]
+                        else:
+                            break
+                    if isinstance(b, tuple) and b and b[0] == "var" and b[1] in aliases and names:
+                        return names
+                    return None
+                # whole-value delegation: `copy.merge_with(other)` -- R4 checks merge_with
+                deleg = False
+                for y in S.subterms(sq):
+                    if is_call(y) and y[2] and len(y[2]) >= 2:
+                        r0 = y[2][0]
+                        while is_call(r0, UNWRAP) and r0[2]:
+                            r0 = r0[2][0]
+                        if isinstance(r0, tuple) and r0 and r0[0] == "var" and r0[1] == res and any(isinstance(z, tuple) and z and z[0] == "var" and z[1] == O for a in y[2][1:] for z in S.subterms(a)):
+                            deleg = True
+                if deleg:
+                    run.note("R1: %s::merge patches a copy through a whole-value call (delegation; see R4)" % short)
+                    break
+                written = {}
+                for y in S.subterms(sq):
+                    if isinstance(y, tuple) and y and y[0] in ("assign", "assignop"):
+                        l, r = (y[1], y[2]) if y[0] == "assign" else (y[2], y[3])
+                        nm = target_field(l)
+                        if nm:
+                            for f in nm:
+                                written.setdefault(f, set()).update(mentions_t(r) | ({(B, f)} if y[0] == "assignop" else set()))
+                    elif is_call(y, MUTATORS) and y[2]:
+                        nm = target_field(y[2][0])
+                        if nm:
+                            for f in nm:
+                                written.setdefault(f, set()).update({(B, f)})
+                                for a in y[2][1:]:
+                                    written[f].update(mentions_t(a))
+                Ps = [c for c in cands if set(written) & {f["name"] for f in c["variants"][0]["fields"]}]
+                P = max(Ps, key=lambda c: len(set(written) & {f["name"] for f in c["variants"][0]["fields"]})) if Ps else adt
+                n += 1
+                for fld in P["variants"][0]["fields"]:
+                    fname, fty = fld["name"], F.tyi(fld["t"])
+                    if not domainish(fty, impl_adts):
+                        continue
+                    if (P["path"], fname) in EXEMPT:
+                        continue
+                    m = written.get(fname)
+                    key = "%s|%s" % (short, fname)
+                    if m is None:
+                        run.violated("R1", key, "%s::merge starts from a copy of `%s` and never updates field `%s`: the merged value keeps %s.%s and ignores %s.%s" % (short, B, fname, B, fname, O, fname), site)
+                    else:
+                        missing = [b for b in ("self", "other") if (b, fname) not in m]
+                        run.check("R1", key, not missing, "field `%s` of the merged %s does not depend on %s" % (fname, short, " and ".join("%s.%s" % (b, fname) for b in missing)), site)
+                break
+        run.note("R1 (wrapper / clone-and-patch form): %d merges analysed" % n)
+
+    run.guarded("R1", r1b)
 
     def r2():
         fn = F.fn("merge", adt="DataDomain", trait="AbstractDomain")
